@@ -339,6 +339,26 @@ func (w *pw) run(op pwOp) {
 				w.ev("remoteRemove(%s)", a)
 			}
 		}
+	case "hidenext":
+		// the next metadata view of pre-attached interface N omits its idle secondary addresses (they stay assigned)
+		if op.N < len(w.preIDs) {
+			e := w.cloud.ENIs[w.preIDs[op.N]]
+			held := map[netip.Addr]bool{}
+			for _, r := range w.live {
+				for _, a := range resIPs(r) {
+					held[a] = true
+				}
+			}
+			hide := map[netip.Addr]bool{}
+			for _, a := range append(append([]netip.Addr{}, e.V4...), e.V6...) {
+				if a != e.Primary && !held[a] {
+					hide[a] = true
+					break // one address (per call) is enough
+				}
+			}
+			w.cloud.HideNext = hide
+			w.ev("nextViewOmits(%v)", hide)
+		}
 	case "rremoveheld":
 		// the cloud loses the secondary address(es) a live pod holds (out-of-band unassign, or a metadata view lagging behind)
 		if r := w.live[op.Pod]; r != nil {
